@@ -38,13 +38,20 @@ CORPUS = [
     "incl L W 1 0 1 1 2 0 0 1 1 0 1 W 1 0 1 0 1 0 0 0",
     "incl F W 1 0 1 1 1 0 0 1 W 1 0 1 1 1 0 1 1",
     "incl L W 2 0 1 1 1 1 0 0 1 W 1 0 1 1 1 0 0 1",
-    # D6: operands sharing state numbers (every freshly built pair does); minimised failures of the pre-fix code
-    "incl L W 1 0 1 1 1 0 0 1 W 1 1 1 0 1 1 0 0",
-    "incl L W 1 1 1 1 0 W 1 0 1 0 0",
-    "incl L W 1 0 1 0 0 W 1 1 1 1 1 1 0 1",
-    # D5: incomparable macro-states met by the same state of the smaller automaton, compared in both orders
-    "incl L W 1 0 1 0 2 0 0 0 0 1 0 W 2 0 1 2 2 3 6 0 0 2 0 1 3 1 0 3 1 1 2 2 0 2 3 1 3",
-    "incl L W 1 0 1 1 4 0 0 0 0 1 0 0 0 1 1 1 1 W 1 0 2 1 2 6 0 0 1 0 0 2 0 1 0 1 1 1 2 0 2 1 0 0",
+    # D6: operands sharing state numbers (every freshly built pair does); minimised failures of the code before 365b24d4
+    "incl F W 1 0 1 0 2 0 0 0 0 0 1 W 2 0 1 2 0 1 2 0 0 1 1 1 1",
+    "incl L W 1 0 1 0 1 1 0 0 W 2 0 1 2 0 1 2 0 0 1 0 1 1",
+    "incl L W 1 0 0 0 W 0 1 0 0",
+    "incl F W 1 0 1 0 1 0 0 0 W 2 0 1 2 0 1 2 0 0 1 0 1 1",
+    "incl L W 1 0 1 1 2 0 0 0 0 1 1 W 2 0 1 2 0 1 2 0 0 0 1 1 0",
+    "incl F W 1 0 1 1 2 0 1 1 1 0 1 W 2 0 1 2 0 1 2 0 0 1 0 1 0",
+    # D5: incomparable macro-states met by the same state of the smaller automaton, compared in both orders;
+    # minimised failures (wrong "included" / no termination) of the code before 7ca3f30b
+    "incl F W 2 0 1 1 0 2 0 0 1 1 0 0 W 1 0 1 0 2 0 0 1 1 0 0",
+    "incl L W 1 0 1 0 2 0 0 0 0 1 0 W 2 0 1 2 0 1 2 0 0 1 0 1 0",
+    "incl F W 1 0 1 0 2 0 0 0 0 1 0 W 2 0 1 2 0 1 2 0 0 0 0 1 1",
+    "incl F W 1 0 1 1 3 0 0 1 1 0 1 1 1 1 W 1 1 3 0 1 2 5 1 0 1 0 1 0 1 0 0 2 0 1 1 1 2",
+    "incl F W 1 0 1 1 6 0 0 0 0 0 1 0 1 0 0 1 1 1 0 1 1 1 1 W 2 0 1 3 0 1 2 6 1 0 1 0 1 0 1 0 0 2 0 1 2 1 2 1 1 2",
 ]
 
 def line(rng, a, b):
@@ -107,4 +114,4 @@ LEVEL_NOTE = ("Trusted: Coq kernel, ExtrOcamlBasic extraction, OCaml/C++ glue, g
               "hash iteration orders and pointer-keyed caches are abstracted (proof is order-agnostic). No axioms.")
 TECHNIQUE = "Coq proof of verdict model + algorithmic antichain model + verified decider; extracted-model correspondence against libvata on generated NFA pairs"
 DESIGN_REF = "DESIGN.md 5/C09"
-READY = False
+READY = True
